@@ -552,6 +552,11 @@ impl TB {
         self.push(t, K::New, dact.wrapping_sub(1), rank_hint, 32 | 3 | 64 | 128);
         self.add_rc(t, name);
     }
+    /// chain of 2*(half+1) nodes; the head gets `name`
+    pub fn new_chain(&mut self, t: usize, name: &str, half: u8) {
+        self.push(t, K::NewChain, half, 0, 0);
+        self.add_rc(t, name);
+    }
     pub fn until_steps(&mut self, t: usize, n: u32) {
         self.sched.push(Directive { thread: t as u8, until: Until::Steps(n) });
     }
